@@ -23,12 +23,18 @@ for prop in C17 C01 C05 C06 C07 C08 C10 C12 C13 C14 C16; do
     wait
     "$REL" digest --prop $prop --seed $seed --runs $runs --threads 16 --full > "$OUT/$prop-$seed-rel16b.dig"
     ref="$OUT/$prop-$seed-rel16a.dig"
-    for f in rel16b rel5 rel1 ras16 nos7; do
+    ok=yes
+    legs="rel16b rel5 rel1 ras16 nos7"
+    # the C17 battery contains calls with stale ids (logged, not judged): for such misuse the library's
+    # debug assertions legitimately change the outcome, so that profile is not compared across
+    # debug-assertion settings (C05's profile, which is, contains no misuse)
+    [ "$prop" = C17 ] && legs="rel16b rel5 rel1 nos7"
+    for f in $legs; do
       if ! diff -q <(grep -v '^DIGEST' "$ref") <(grep -v '^DIGEST' "$OUT/$prop-$seed-$f.dig") >/dev/null; then
-        echo "NONDETERMINISM: $prop seed $seed: rel16a vs $f differ"; rc=1
+        echo "NONDETERMINISM: $prop seed $seed: rel16a vs $f differ"; rc=1; ok=NO
       fi
     done
-    echo "determinism: $prop seed $seed: $(grep -c -v '^DIGEST' "$ref") runs x 6 executions (workers 16,16,5,1; relassert; no_std build) identical: $([ $rc = 0 ] && echo yes || echo NO)"
+    echo "determinism: $prop seed $seed: $(grep -c -v '^DIGEST' "$ref") runs x $(( $(echo $legs | wc -w) + 1 )) executions (workers 16,16,5,1; relassert; no_std build) identical: $ok"
   done
 done
 [ $rc = 0 ] && echo "SELFTEST determinism: PASS" || echo "SELFTEST determinism: FAIL"
